@@ -8,6 +8,12 @@ CLI_NOTE = ("Trusted: the device reference model (one line per (rule,key), own n
             "permanent/ignore_changes only outside %ordered blocks). Sampling, not proof. Junos-style flattening vendors not covered.")
 
 CLAIMED = {
+ "C16": dict(
+    engine="files",
+    technique="deterministic simulation: seeded world states written to files, the real file-patch/file-diff front ends run through the real Parallel on simulated multiprocessing (schedule, delays, retirement, listing order drawn) and are compared host by host with the device front end",
+    level_text="Seeded differential exploration between two real code paths on simulated world states: corpus pairs in both directions, per-vendor cross products and seeded mutations are written by the vendor formatter for 1-8 hosts; api.file_patch and api.file_diff (with _read_old_new_cfgdumps, pool workers, _read_old_new_diff_patch) must produce, for every host, exactly the patch text and the diff text the device front end (_diff_and_patch on the trees parsed from the same files) produces, and every host must be delivered exactly once.",
+    design_ref="DESIGN.md 5 (C16)",
+    level_note="Trusted: FakeMP (as for C12), the scratch directory, the canonical rendering of the device-mode diff through gen_pre_as_diff. Explicit hardware, no ACL, implicit defaults off, add_comments off. The schedule matters only for delivery."),
  "C11": dict(
     engine="vlan",
     technique="deterministic simulation with fault injection: seeded VLAN-set histories through the real `annet deploy` on the shipped huawei/cisco/nexus rulebooks against a set-valued device model; invariant after every executed command, deploys cut at drawn commands",
